@@ -3,6 +3,7 @@ package transformer
 import (
 	"fmt"
 	"strings"
+	"unicode/utf8"
 
 	"github.com/antlr4-go/antlr/v4"
 	"github.com/hashicorp/go-multierror"
@@ -533,7 +534,8 @@ func ParseDSL(data string) (*OpenFgaDslListener, *OpenFgaDslErrorListener) {
 			// what is cut off in front of a carriage return is blanked out rather than removed, so that the
 			// rest of the line keeps its columns (the lexer takes the blanks into the line break)
 			if idx < len(segments)-1 {
-				cleanedSegment += strings.Repeat(" ", len(segment)-len(cleanedSegment))
+				// (columns are counted in characters, not in bytes)
+				cleanedSegment += strings.Repeat(" ", utf8.RuneCountInString(segment)-utf8.RuneCountInString(cleanedSegment))
 			}
 
 			segments[idx] = cleanedSegment
